@@ -153,7 +153,8 @@ TDump ==
         \* C06: the Open that follows a successful Merge has adopted it: no merge directory is left, and the
         \* files below the first non-participating id hold exactly one plain put per key that was live at
         \* the merge, with the value it had then (the sequential driver has no racing writer)
-        /\ Must("nomdir", e.rescan => \A i \in 1..Len(e.mdir) : e.mdir[i] # "000000000.merge-finished")
+        \* (unless a Merge has run since that Open and before this first dump: its finished directory is legitimately there)
+        /\ Must("nomdir", (e.rescan /\ ~(mg.on /\ mg.nm = -1)) => \A i \in 1..Len(e.mdir) : e.mdir[i] # "000000000.merge-finished")
         /\ Must("adopted", (e.rescan /\ mg.on /\ mg.nm >= 0) =>
                LET low == SelectSeq(e.scan, LAMBDA r : r.f < mg.nm) IN
                /\ Len(e.mdir) = 0
@@ -161,9 +162,9 @@ TDump ==
                /\ \A i \in 1..Len(low) : /\ low[i].t = 0 /\ low[i].bt = 0 /\ low[i].k \in K
                                           /\ low[i].v = mg.snap[low[i].k]
                /\ \A i, j \in 1..Len(low) : i # j => low[i].k # low[j].k)
-        /\ mg' = IF e.rescan THEN NoMg
-                 ELSE IF mg.on /\ mg.nm = -1 /\ \E i \in 1..Len(e.files) : e.files[i].active = 1
-                      THEN [mg EXCEPT !.nm = e.files[CHOOSE i \in 1..Len(e.files) : e.files[i].active = 1].id]
+        /\ mg' = IF mg.on /\ mg.nm = -1 /\ \E i \in 1..Len(e.files) : e.files[i].active = 1
+                 THEN [mg EXCEPT !.nm = e.files[CHOOSE i \in 1..Len(e.files) : e.files[i].active = 1].id]
+                 ELSE IF e.rescan THEN NoMg
                  ELSE mg
         /\ lastact' = IF \E i \in 1..Len(e.files) : e.files[i].active = 1
                        THEN e.files[CHOOSE i \in 1..Len(e.files) : e.files[i].active = 1].id
